@@ -38,3 +38,21 @@ def reviewed_owners(ctx, f, _seen=None):
         if g is not None and g.id != f.id:
             out |= reviewed_owners(ctx, g, seen)
     return out or {f.name}
+
+
+def reviewed_owner_fns(ctx, f, _seen=None):
+    """like reviewed_owners, but the functions themselves"""
+    if not is_new(ctx, f):
+        return [f]
+    seen = _seen or set()
+    if f.id in seen:
+        return []
+    seen = seen | {f.id}
+    out = []
+    for cid in _callers(ctx).get(f.id, ()):
+        g = ctx.mir.fns.get(cid)
+        if g is not None and g.id != f.id:
+            for h in reviewed_owner_fns(ctx, g, seen):
+                if h not in out:
+                    out.append(h)
+    return out or [f]
